@@ -228,7 +228,8 @@ def carries (s : Scene) (d : Doc) (buf : List UInt8) (md : Model) (n : GNode) : 
                         | some x => x.comp == attrComp a.name && x.dim == a.dim && x.count == a.vals.length
                         | none => false)
                 | none => false)
-              && p.attrs.all (fun ka => m.written.any (fun a => gltfAttrName a.name == ka.1))   -- no foreign attribute (keys of a JSON object are unique)
+              && p.attrs.all (fun ka => m.written.any (fun a => gltfAttrName a.name == ka.1))   -- no foreign attribute
+              && p.attrs.length == m.written.length                                          -- exactly as many keys as written attributes
               && (match p.indices with
                   | some i => decodeAt d buf i == some m.indices
                   | none => false)
